@@ -6,6 +6,7 @@ pub mod determinism;
 pub mod evalorder;
 pub mod attributes;
 pub mod discard;
+pub mod queryhist;
 pub mod externs;
 pub mod fnvalues;
 pub mod generics;
@@ -59,6 +60,7 @@ pub fn all() -> Vec<Box<dyn Family>> {
         Box::new(externs::Externs),
         Box::new(discard::Discard),
         Box::new(attributes::Attributes),
+        Box::new(queryhist::QueryHistories),
         Box::new(generics::Generics),
         Box::new(methods::Methods),
         Box::new(derive::Derive),
